@@ -52,5 +52,13 @@ theorem header_bridge (f : Fn) (h : f.receiver = "" ∨ (f.styleArg = true) ∨ 
     Gen.header f = Spec.header f := by
   unfold Gen.header Spec.header Spec.params
   by_cases hr : f.receiver = "" <;> by_cases hs : f.styleArg = true <;>
-    simp [hr, hs, joinSep_cons_prefixed, String.append_assoc, param, joinSep, concatMap]
-  all_goals trace_state; all_goals sorry
+    simp [hr, hs, joinSep_cons_prefixed, String.append_assoc, param, joinSep]
+  -- remaining case: receiver, return style: only provable when there are no additional arguments
+  rcases h with h | h | h
+  · exact absurd h hr
+  · exact absurd h hs
+  · simp [h, concatMap, joinSep]
+
+-- the excluded case is a real difference (the stray comma of DESIGN §5 #13):
+example : Gen.header ⟨"F", "r", ⟨"s", "S", false⟩, ⟨"d", "D", false⟩, [⟨"a", "int", false⟩], false, false⟩
+    = "func (r S) F(, a int) " := by decide
